@@ -322,7 +322,12 @@ func solveOb(o *Obligation, qdir string, timeoutS int, thorough bool, expectSat 
 		return r, all, lite
 	}
 	ground := writeQuery(qdir, base+".ground", o.BuildQueryT(false, true, true, true, 2.0))
-	g := runSolver("z3-new", ground, minInt(timeoutS, 8))
+	// in the retry pass (three times the budget, three obligations at a time) the ground variant gets half of it
+	gb := 8
+	if timeoutS/2 > gb {
+		gb = timeoutS / 2
+	}
+	g := runSolver("z3-new", ground, minInt(timeoutS, gb))
 	g.Solver = "z3-new(ground)"
 	all = append(all, g)
 	if g.Status == "unsat" && !thorough {
